@@ -59,7 +59,8 @@ Proof.
 Qed.
 Lemma Blk_shift s wm o l cm ops : Blk wm o l cm ops -> Blk wm (o + s) l cm (shift s ops).
 Proof.
-  induction 1 as [wm o cm | wm o cm Hcm | wm o l Hl | wm o l cm j s1 s2 Hl Hcm Hj Hb1 IH1 Hb2 IH2].
+  induction 1 as [wm o cm | wm o cm | wm o cm Hcm | wm o l cm Hl Hcm1 | wm o l cm j s1 s2 Hl Hcm Hj Hb1 IH1 Hb2 IH2].
+  2:{ rewrite shift_adj. apply B0n. }
   - rewrite shift_app, shift_adj. cbn [shift map shift1]. apply B0.
   - rewrite !shift_app, shift_wmop, shift_adj, shift_tail0. cbn [shift map shift1].
     replace (o + 1 + s) with (o + s + 1) by lia. apply B1; assumption.
@@ -73,6 +74,7 @@ Lemma Blk_remove_wm o l cm ops : Blk true o l cm ops -> Blk false o l cm (remove
 Proof.
   inversion 1; subst; cbn [wmop app remove_useless_wm].
   - unfold adj. cbn [app remove_useless_wm]. apply (B0 false).
+  - unfold adj. cbn [remove_useless_wm]. apply (B0n false).
   - apply (B1 false); assumption.
   - apply (Bc1 false); assumption.
   - eapply (Bsp false); eassumption.
@@ -133,7 +135,7 @@ Proof.
     replace (l - 1 - 1) with (Z.of_nat k - 1) by lia. rewrite cm1_rest by lia.
     replace k with (Z.to_nat (l - 1)) by lia.
     change (Blk true 0 l 1 (wmop true 0 ++ [OF 0 (0 + l)] ++ adj (0 + l) ++ loop1 (Z.to_nat (l - 1)) 0 ++ tail0 0)) || idtac.
-    pose proof (Bc1 true 0 l ltac:(lia)) as HB. cbn [wmop] in HB. unfold adj, tail0 in *. cbn [app] in *.
+    pose proof (Bc1 true 0 l 1 ltac:(lia) ltac:(lia)) as HB. cbn [wmop] in HB. unfold adj, tail0 in *. cbn [app] in *.
     replace (0 + l) with l in HB by lia. replace (0 + 1) with 1 in HB by lia. exact HB. }
   destruct (map_res _ (zrange 1 l)) as [lm|] eqn:Elm; cbn [gbind] in H; [|discriminate].
   assert (Hlen : length lm = Z.to_nat (l - 1)) by (rewrite (map_res_length _ _ _ Elm), zrange_length; reflexivity).
